@@ -6,13 +6,16 @@ Implementation driven (all real code, in a throw-away sandbox tree under tempfil
     tarfile, then staged into <sandbox>/t/work;
   * experiment.model.frontends.flowir.Manifest (validate) and
     experiment.model.storage.ExperimentPackage.expandPackageToDirectory (manifest driven population of a
-    new instance directory <sandbox>/loc/x.instance).
+    new instance directory <sandbox>/loc/x.instance), also with source folders generated per case that hold
+    symbolic links (any depth, any kind) and manifest keys nested below them.
 
 Predicate (the property as stated): a recursive listing (names, kinds, sizes, contents digest, link
 targets) of everything in the sandbox OUTSIDE the target directory is the same before and after;
 every input that lexically leaves the target (member name, link target, manifest key) is refused, and
-whatever is raised is a staging / packaging error.  Correspondence: accept/reject of the coded checks
-and the set of entries created in the working directory are compared with coq/Path/Model.v."""
+whatever is raised is a staging / packaging error; no manifest target is populated through a link of the
+instance.  Correspondence: accept/reject of the coded checks, the set of entries created in the working
+directory and, for deployments, completion + every entry of the instance with its kind are compared with
+coq/Path/Model.v (tar_check, created, validate, deploy_ok, deploy_fs)."""
 import hashlib
 import io
 import json
@@ -22,7 +25,7 @@ import tarfile
 import tempfile
 import types
 
-from common import cstr, cbool, clist, copt, cpair
+from common import cstr, cbool, clist, copt, cpair, cnat
 
 PROP = 'C18'
 COQ_DIR = 'Path'
@@ -37,6 +40,11 @@ ASSUMPTIONS = [
     'Job.stageIn is driven with a duck-typed job (type, references, working directory); the DataReference objects are '
     'duck-typed (method, resolve(), stringRepresentation)',
     'ExperimentPackage is built over a duck-typed configuration (location, isExperimentPackageDirectory, manifestData)',
+    'source folders of manifest entries: their content (files, directories, symbolic links at any depth with the text and '
+    'what they lead to) is read from the sandbox by the harness and given to the model (Path.Model.deploy_fs); after every '
+    'deployment EVERY entry of the instance directory, with its kind (directory / file / link), is compared with the '
+    'model, so that shutil.copytree follows the links of a source folder is checked, not trusted; source folders with '
+    'link loops and special files are not generated',
 ]
 HEADER = 'Require Import V.Path.Model.\nOpen Scope string_scope.'
 SB = '$SB'
@@ -598,6 +606,180 @@ def run_migrate_case(ctx, src_rel):
         pool.release(sb, True)
 
 
+# ------------------------------------------------------------------ source folders with links inside
+# A :copy entry brings the CONTENT of its source folder into the instance; what that content is made of — in
+# particular symbolic links at any depth (to directories, to files, dangling, absolute, relative, leading inside or
+# outside the source) — decides whether a later, nested, manifest key is populated through a link.  The generated
+# source folders live in <sandbox>/pkg/gen/<name>, a tree is [(relative path, 'dir'|'file'|'link', link text)].
+GEN = 'gen'
+
+
+def make_trees(sb, trees):
+    root = os.path.join(sb.root, 'pkg', GEN)
+    shutil.rmtree(root, ignore_errors=True)
+    for name in sorted(trees or {}):
+        base = os.path.join(root, name)
+        os.makedirs(base)
+        for rel, kind, text in trees[name]:
+            q = os.path.join(base, rel)
+            if kind == 'dir':
+                os.makedirs(q, exist_ok=True)
+            elif kind == 'file':
+                with open(q, 'w') as fh:
+                    fh.write('content of %s/%s' % (name, rel))
+            else:
+                os.symlink(sb.real(text), q)
+
+
+def source_tree(sb, path, depth=0):
+    """the content of a source folder as the model takes it: entries in walk order, what lies below a link to a
+    directory listed as seen through the link; None when the path is not a directory"""
+    if not os.path.isdir(path):
+        return None
+    out = []
+
+    def walk(p, rel, depth):
+        if depth > 7:                                                  # generated trees have no link loops
+            raise RuntimeError('source tree too deep: %s' % p)
+        for name in sorted(os.listdir(p)):
+            q = os.path.join(p, name)
+            r = rel + [name]
+            if os.path.islink(q):
+                sees = None if not os.path.exists(q) else os.path.isdir(q)
+                out.append((r, 'link', sb.canonical(os.readlink(q)), sees))
+                if sees:
+                    walk(q, r, depth + 1)
+            elif os.path.isdir(q):
+                out.append((r, 'dir', '', None))
+                walk(q, r, depth + 1)
+            else:
+                out.append((r, 'file', '', None))
+    walk(path, [], 0)
+    return out
+
+
+def ctree(t):
+    if t is None:
+        return '(@None stree)'
+
+    def ent(e):
+        rel, kind, text, sees = e
+        if kind == 'link':
+            k = '(SLnk %s %s)' % (cstr(text), '(@None bool)' if sees is None else '(Some %s)' % cbool(sees))
+        else:
+            k = 'SDir' if kind == 'dir' else 'SFile'
+        return cpair(clist(rel, cstr), k)
+    return '(Some %s)' % clist(t, ent)
+
+
+def source_and_method(v):
+    """sourceFolder.rsplit(':', 1) of expandPackageToDirectory"""
+    if ':' in v:
+        return tuple(v.rsplit(':', 1))
+    return v, 'copy'
+
+
+LINK_DIRS = lambda up, g: [SB + '/out', up + '../../../out', up + '../../src2', SB + '/pkg/src2', up + 'plain',  # noqa
+                           SB + '/pkg/gen/%s/plain' % g, up + '../../src/deep', SB + '/out']
+LINK_FILES = lambda up, g: [SB + '/out/secret.txt', up + 'f.txt', up + '../../src/f.txt', up + '../../../t/work2/keep.txt']  # noqa
+LINK_DANGLING = lambda up, g: ['nowhere', SB + '/out/none', up + '../../../gone/x']  # noqa
+
+
+def gen_tree(rng, g, links):
+    """a source folder: plain/ (never holds a link: inner links may point at it without making a loop), f.txt, sometimes
+    d/e/; [links] symbolic links at depth 0..2"""
+    ents = [('plain', 'dir', ''), ('plain/p.txt', 'file', ''), ('f.txt', 'file', '')]
+    homes = ['']
+    if rng.random() < 0.6:
+        ents += [('d', 'dir', ''), ('d/e', 'dir', ''), ('d/e/k.dat', 'file', '')]
+        homes += ['d/', 'd/e/', 'd/']
+    used = set()
+    for _ in range(links):
+        where = rng.choice(homes)
+        name = where + rng.choice(['shared', 'l', 'ln2'])
+        if name in used:
+            continue
+        used.add(name)
+        up = '../' * where.count('/')
+        r = rng.random()
+        pool = LINK_DIRS if r < 0.6 else (LINK_FILES if r < 0.8 else LINK_DANGLING)
+        choices = pool(up, g)
+        if g == 'g0' and r < 0.6:
+            # a link to the OTHER generated folder, which may hold links itself (g1 never points back: no loops)
+            choices = choices + [up + '../g1', SB + '/pkg/gen/g1']
+        ents.append((name, 'link', rng.choice(choices)))
+    return ents
+
+
+def gen_tree_manifest(rng):
+    """(trees, manifest): a :copy of a generated source folder and a second entry whose key is a nested path that lands
+    on, below or next to something inside the first target — preferably a link of the source folder"""
+    trees = {'g0': gen_tree(rng, 'g0', rng.choice([0, 1, 1, 2, 2, 3]))}
+    if rng.random() < 0.7:
+        trees['g1'] = gen_tree(rng, 'g1', rng.choice([0, 0, 1]))
+    top = rng.choice(['data', 'a', 'data/sub', 'x/y', 'conf', 'bin', './data'])
+    first = (top, GEN + '/g0' + rng.choice([':copy', ':copy', '', ':copy', ':link']))
+    lnk = [e[0] for e in trees['g0'] if e[1] == 'link']
+    other = [e[0] for e in trees['g0'] if e[1] != 'link'] + ['nothing']
+    man = [first]
+    r = rng.random()
+    if r < 0.85:
+        inner = rng.choice(lnk) if lnk and rng.random() < 0.7 else rng.choice(other)
+        key2 = top + '/' + inner + rng.choice(['/extra', '/extra', '/extra/deep', '/x', '', '/.'])
+        src2 = rng.choice([GEN + '/g1:copy', GEN + '/g1', 'src2:copy', 'src2', 'src2:link', GEN + '/g1:link',
+                           GEN + '/g0/plain:copy', 'src/deep:copy'])
+        man.append((key2, src2))
+        if rng.random() < 0.15:
+            man.reverse()
+        if rng.random() < 0.25 and lnk:
+            man.append((top + '/' + rng.choice(lnk) + '/third', rng.choice(['src2:copy', 'src2:link'])))
+    if r >= 0.7 and lnk:
+        # the source folder of an entry is itself (reached through) a link of a generated folder
+        via = rng.choice(['b', 'viaLink', 'data2/in'])
+        man.append((via, GEN + '/g0/' + rng.choice(lnk) + rng.choice([':copy', '', ':link'])))
+        if rng.random() < 0.5:
+            inner = [e[0] for e in trees.get('g1', []) if e[1] == 'link'] + ['shared', 'plain']
+            man.append((via + '/' + rng.choice(inner) + rng.choice(['/extra', '/x/y', '']), rng.choice(['src2:copy', 'src2', 'src2:link'])))
+    if rng.random() < 0.3:
+        man.insert(rng.randint(0, len(man)), (rng.choice(['hooks', 'ab', 'a.b', 'lib/x']), rng.choice(SOURCES[:6])))
+    seen, out = set(), []
+    for k, v in man:
+        if k not in seen:
+            seen.add(k)
+            out.append((k, v))
+    return trees, out
+
+
+# boundary cases kept forever: (source folders, manifest)
+CORPUS_TREE = [
+    # a directory link (absolute, leading outside) directly in a copied folder + a nested key below it
+    ({'g0': [('readme.txt', 'file', ''), ('shared', 'link', SB + '/out')], 'g1': [('notes.txt', 'file', '')]},
+     [('data', GEN + '/g0:copy'), ('data/shared/extra', GEN + '/g1:copy')]),
+    # a relative link two levels down, the nested key is a :link
+    ({'g0': [('d', 'dir', ''), ('d/e', 'dir', ''), ('d/e/l', 'link', '../../../../../out')]},
+     [('a', GEN + '/g0'), ('a/d/e/l/new', 'src2:link')]),
+    # a link to a file and a dangling link: a key below either
+    ({'g0': [('f.txt', 'file', ''), ('fl', 'link', SB + '/out/secret.txt')]},
+     [('data', GEN + '/g0:copy'), ('data/fl/x', 'src2:copy')]),
+    ({'g0': [('f.txt', 'file', ''), ('dang', 'link', 'nowhere')]},
+     [('data', GEN + '/g0:copy'), ('data/dang/x', 'src2:copy')]),
+    # links that stay inside the source folder (relative and absolute)
+    ({'g0': [('plain', 'dir', ''), ('plain/p.txt', 'file', ''), ('in', 'link', 'plain'), ('ain', 'link', SB + '/pkg/gen/g0/plain')]},
+     [('x/y', GEN + '/g0:copy'), ('x/y/in/extra', 'src2:copy'), ('x/y/ain/extra', 'src2')]),
+    # the source folder itself is a link of another folder; a link to a sibling source folder
+    ({'g0': [('shared', 'link', '../../src2'), ('plain', 'dir', '')]},
+     [('b', GEN + '/g0/shared:copy'), ('c', GEN + '/g0:copy'), ('c/shared/deep', 'src/deep:copy')]),
+    # the source folder is a link to a folder that itself holds a link; a nested key below that inner link
+    ({'g0': [('l', 'link', '../g1')], 'g1': [('shared', 'link', SB + '/out'), ('n.txt', 'file', '')]},
+     [('b', GEN + '/g0/l:copy'), ('b/shared/extra', 'src2:copy'), ('c', GEN + '/g0:copy'), ('c/l/shared/x', 'src2')]),
+    # the nested key comes first: the folder copy then finds its target present
+    ({'g0': [('shared', 'link', SB + '/out')]}, [('data/shared/extra', 'src2:copy'), ('data', GEN + '/g0:copy')]),
+    # conf copied from a folder whose flowir_package.yaml / dsl.yaml is a link to a file outside
+    ({'g0': [('flowir_package.yaml', 'link', SB + '/out/secret.txt'), ('dsl.yaml', 'link', SB + '/out/secret.txt')]},
+     [('conf', GEN + '/g0:copy')]),
+]
+
+
 # ------------------------------------------------------------------ manifests
 KEYS_OK = ['bin', 'data', 'conf', 'data/sub', 'a/b/c', './x', 'x/.', 'x//y', 'a', 'a/b', 'ab', 'hooks', 'a.b', '.']
 KEYS_BAD = ['../x', 'a/../../x', '..', 'data/../..', SB + '/out/x', '/abs', '../x.instance2/y', '../../out/new', 'a/../b',
@@ -686,7 +868,7 @@ PACKAGING = ('FlowIRManifestSyntaxException', 'FlowIRManifestKeyIsAbsolutePath',
              'FlowIRManifestInvalidType', 'FlowIRManifestException')
 
 
-def run_manifest_case(ctx, raw_man, label, dsl=False):
+def run_manifest_case(ctx, raw_man, label, dsl=False, trees=None):
     import experiment.model.frontends.flowir as F
     import experiment.model.storage as S
     import experiment.model.errors as E
@@ -697,6 +879,16 @@ def run_manifest_case(ctx, raw_man, label, dsl=False):
         man = [(sb.real(k), sb.real(v)) for k, v in raw_man]
         cman = [[sb.canonical(k), sb.canonical(v)] for k, v in man]
         canon = {'manifest': cman, 'dsl': dsl}
+        make_trees(sb, trees)
+        if trees:
+            canon['trees'] = {g: [[r, k, sb.canonical(sb.real(t))] for r, k, t in trees[g]] for g in sorted(trees)}
+            ctx.count('manifest:source-links=%d' % min(3, sum(1 for g in trees for e in trees[g] if e[1] == 'link')))
+        # the content of every source folder named by the manifest, as the model takes it
+        srcs = {}
+        for k, v in man:
+            src, _ = source_and_method(v)
+            real_src = src if os.path.isabs(src) else os.path.join(sb.root, 'pkg', src)
+            srcs[sb.canonical(src)] = source_tree(sb, real_src)
         cls = []
         ctx.case(canon, nontrivial=any(('..' in k.split('/')) or k.startswith('/') or '/' in k for k, _ in man) or
                  any(v.endswith(':link') for _, v in man))
@@ -737,6 +929,38 @@ def run_manifest_case(ctx, raw_man, label, dsl=False):
         if self_write_escape(man, dsl) and not isinstance(d_exc, E.FlowIRManifestException):
             ctx.fail(canon, 'a manifest that makes conf or the package file inside it a link was not refused by the deployment '
                             '(%s)' % dname, cls)
+        # no manifest target may have been populated THROUGH a link of the instance (a key below a :link key is refused
+        # by the checks, so such a link can only have been brought by a :copy of a folder that holds links)
+        for k, _ in man:
+            if os.path.isabs(k) or not os.path.lexists(os.path.join(sb.inst, k)):
+                continue
+            q = sb.inst
+            parts = [x for x in os.path.normpath(k).split(os.sep) if x not in ('', '.')]
+            for x in parts[:-1]:
+                q = os.path.join(q, x)
+                if os.path.islink(q):
+                    ctx.count('manifest:populated-through-link')
+                    ctx.fail(canon, 'manifest target %r was populated through %s, a link of the instance to %s' % (
+                        k, os.path.relpath(q, sb.inst), sb.canonical(os.readlink(q))), cls)
+                    break
+        if trees:
+            below = False
+            for k, v in raw_man:
+                src, method = source_and_method(v)
+                if method == 'copy' and src.startswith(GEN + '/') and src[len(GEN) + 1:] in trees:
+                    for rel, kind, _ in trees[src[len(GEN) + 1:]]:
+                        lp = os.path.normpath(os.path.join(k, rel)) + os.sep
+                        if kind == 'link' and any(k2 != k and (os.path.normpath(k2) + os.sep).startswith(lp) for k2, _ in raw_man):
+                            below = True
+            if below:
+                ctx.count('manifest:key-on-or-below-a-link-of-a-copied-folder')
+                if d_exc is None:
+                    ctx.count('manifest:key-on-or-below-a-link-of-a-copied-folder:deployed')
+        inst_listing = listing(sb.inst) if os.path.isdir(sb.inst) and not os.path.islink(sb.inst) else {}
+        codes = {'dir': 0, 'file': 1, 'link': 2}
+        inst_entries = sorted((r.split(os.sep), codes[d.split(':', 1)[0]]) for r, d in inst_listing.items())
+        if any(c == 2 for _, c in inst_entries):
+            ctx.count('manifest:instance-holds-links')
         if d_exc is None:
             missing = [k for k, _ in man if not os.path.lexists(os.path.join(sb.inst, k))]
             if missing:
@@ -748,9 +972,11 @@ def run_manifest_case(ctx, raw_man, label, dsl=False):
         ctx.count('manifest:valid' if v_exc is None else 'manifest:rejected')
         ctx.count('manifest:deployed' if d_exc is None else ('manifest:deploy-refused' if not d_accept else 'manifest:deploy-os-error'))
         ctx.sample({'manifest': cman, 'validate': vname, 'deploy': dname}, limit=12)
-        term = '(%s, %s, %s, %s)' % (clist(cman, lambda e: cpair(cstr(e[0]), cstr(e[1]))), cbool(dsl), cbool(v_exc is None),
-                                     cbool(d_accept))
-        return (term, canon, {'validate': vname, 'deploy': dname})
+        term = '(%s, %s, %s, %s, %s, %s, %s)' % (
+            clist(sorted(srcs.items()), lambda kv: cpair(cstr(kv[0]), ctree(kv[1]))),
+            clist(cman, lambda e: cpair(cstr(e[0]), cstr(e[1]))), cbool(dsl), cbool(v_exc is None), cbool(d_accept),
+            cbool(d_exc is None), clist(inst_entries, lambda e: cpair(clist(e[0], cstr), cnat(e[1]))))
+        return (term, canon, {'validate': vname, 'deploy': dname, 'instance': [['/'.join(r), c] for r, c in inst_entries][:40]})
     finally:
         pool.release(sb, changed)
 
@@ -808,14 +1034,14 @@ def _drive(ctx, tar_cases, stage_cases, man_cases, tar_terms, stage_terms, man_t
         else:
             stage_terms.append(run_stage_case(ctx, c['source'], c['method'], c.get('via_job', True)))
     for c in man_cases:
-        man_terms.append(run_manifest_case(ctx, c['manifest'], c.get('label', 'gen'), c.get('dsl', False)))
+        man_terms.append(run_manifest_case(ctx, c['manifest'], c.get('label', 'gen'), c.get('dsl', False), c.get('trees')))
 
 
 def _compare(ctx, tar_terms, stage_terms, man_terms, pre_terms):
     for terms, checker, name in ((pre_terms, 'check_tar_pre', 'C18 archives into a working directory that holds links: StageReference check vs Path.Model.tar_check_pre'),
                                  (tar_terms, 'check_tar', 'C18 archives: StageReference check + created entries vs Path.Model.tar_check/created'),
                                  (stage_terms, 'check_stage', 'C18 copy/link: entry created by StageReference vs Path.Model.stage_name'),
-                                 (man_terms, 'check_man2', 'C18 manifests: Manifest.validate / expandPackageToDirectory vs Path.Model.validate / deploy_ok')):
+                                 (man_terms, 'check_man3', 'C18 manifests: Manifest.validate / expandPackageToDirectory (accept/reject, completion, every entry of the instance with its kind) vs Path.Model.validate / deploy_ok / deploy_fs')):
         bad = ctx.model_mismatches(HEADER, [t[0] for t in terms], checker, chunk=120, name=checker)
         for i in bad:
             ctx.disagree(terms[i][1], terms[i][2], 'model computes otherwise (see %s)' % checker, name)
@@ -827,7 +1053,11 @@ def run(ctx):
                 '(parent segments, absolute names, sibling directory sharing a character prefix, links pointing outside, '
                 'members extracted through links, hard links to outside files, duplicates) plus every 1-member and sampled '
                 '2-member archive over a 12-name x 8-kind alphabet; manifests: 1..5 entries over nested/odd keys with hostile '
-                'keys, targets inside link targets, bad methods; copy/link sources x methods; non-trivial = has a link, a '
+                'keys, targets inside link targets, bad methods; source folders generated per case (pkg/gen/g0, g1) holding 0..3 '
+                'symbolic links at depth 0..2 (to directories / files / nothing, absolute / relative, leading outside, to a sibling '
+                'source folder, to the other generated folder, or inside the folder) with a second manifest key nested on / below / '
+                'next to an entry of the first target (70% a link of the source folder), in either order, with :copy and :link, and '
+                'entries whose source folder is itself such a link; copy/link sources x methods; non-trivial = has a link, a '
                 'parent segment, an absolute name or a nested key; distinct by the canonical input')
     quick = ctx.tier == 'quick'
     tar_cases = [{'members': m, 'label': 'corpus', 'via_job': i % 2 == 0} for i, m in enumerate(CORPUS_TAR)]
@@ -867,6 +1097,13 @@ def run(ctx):
         man_cases.append({'manifest': gen_manifest(rng, False), 'label': 'benign', 'dsl': rng.random() < 0.3})
     for i in range(240 if quick else 3000):
         man_cases.append({'manifest': gen_manifest(rng, True), 'label': 'hostile', 'dsl': rng.random() < 0.3})
+    # source folders that hold links (any depth, any kind) + nested keys landing on / below them
+    for i, (trees, m) in enumerate(CORPUS_TREE):
+        for dsl in (False, True):
+            man_cases.append({'manifest': m, 'label': 'corpus-source-links', 'dsl': dsl, 'trees': trees})
+    for i in range(170 if quick else 2500):
+        trees, m = gen_tree_manifest(rng)
+        man_cases.append({'manifest': m, 'label': 'source-links', 'dsl': rng.random() < 0.3, 'trees': trees})
     _explore(ctx, tar_cases, stage_cases, man_cases)
     ctx.count('cases', len(tar_cases) + len(stage_cases) + len(man_cases))
 
@@ -889,7 +1126,9 @@ def replay(ctx, path):
                           'pre_link': [(r, unc(t)) for r, t in c['pre_link']] if c.get('pre_link') is not None else None,
                          'label': 'replay'})
     elif 'manifest' in c:
-        man_cases.append({'manifest': [(unc(k), unc(v)) for k, v in c['manifest']], 'label': 'replay', 'dsl': c.get('dsl', False)})
+        trees = {g: [(r, k, unc(t)) for r, k, t in ents] for g, ents in c['trees'].items()} if c.get('trees') else None
+        man_cases.append({'manifest': [(unc(k), unc(v)) for k, v in c['manifest']], 'label': 'replay', 'dsl': c.get('dsl', False),
+                          'trees': trees})
     elif 'source' in c:
         stage_cases.append({'source': c['source'].split('/sb/', 1)[1], 'method': c['method'], 'via_job': c.get('via_job', True)})
     _ = canon_root
